@@ -56,6 +56,13 @@ def ops():
     for path, src, dst in (("s", 0, 0), ("sl", 1, 0), ("sl", 0, 1), ("tm=b|y", 0, 0)):
         O.append(("setstr-self %s[%d]->[%d]" % (path, src, dst), ["setstr_self", 1, H(path), src, dst],
                   lambda m, path=path, src=src, dst=dst: self_set(m, path, src, dst)))
+    # a set to the very value the option holds from its defaults still counts as a set
+    typed("setint", "int", "i", 0, "5", 5)
+    typed("setint", "int", "il", 0, "10", 10)
+    typed("setfloat", "float", "fl", 0, "1.5", 1.5)
+    typed("setfloat", "float", "f", 0, "2.5", 2.5)
+    typed("setstr", "str", "s", 0, "d", "d")
+    typed("setbool", "bool", "b", 0, "0", 0)
     typed("setstr", "str", "s", 0, None, None)                 # NULL is a value a string option can hold
     typed("setstr", "str", "sl", 1, None, None)
     typed("setfloat", "float", "fl", 1, "0.25", 0.25)
